@@ -7,14 +7,15 @@ _compute_column_bounds / _validate_file_schema; reference predicates RejectedUnc
 ScanNeverBreaks, BoundsMeanTheirColumn, AcceptedExact) and spec/MC_SchemaAccept.tla (all histories of
 <= MaxSteps appends; export of every history with the specification's outcome per step).
 
-1. TLC, repaired model (FixWriteTableSchema, FixStrictValues): every reference predicate is an
-   invariant over all histories.  TLC, model of the code as it is: RejectedUnchanged and
-   ContentIsAccepted hold; ScanNeverBreaks, BoundsMeanTheirColumn and AcceptedExact are each VIOLATED
-   (the three defects recorded in findings/C11-*.md); each single repair flag removes exactly its
-   own violation.  Anti-vacuity: targets that must be reachable.
+1. TLC on the model of the CURRENT code (FixWriteTableSchema = FixStrictValues = TRUE, /repo since
+   fec250c and fa79e69): every reference predicate is an invariant over all histories.
+   Anti-vacuity companions (must FAIL): with FixWriteTableSchema = FALSE (the code before fec250c)
+   ScanNeverBreaks and BoundsMeanTheirColumn are violated, with FixStrictValues = FALSE (before
+   fa79e69) AcceptedExact is violated; each single flag repairs exactly its own violation; three
+   reachability targets.
 2. TLC exports every history of length 2 (thorough: plus length 3 over a reduced alphabet) of the
-   as-is model together with the specification's definition of every schema variant / file footer /
-   batch class.
+   current-code model together with the specification's definition of every schema variant / file
+   footer / batch class.
 3. Binding, direction spec -> code: histories are replayed against real tables (two Table handles,
    re-opened when the step says "fresh"), concretised over all column types and value tables.
    After every step the verdict is decided by the PROPERTY's oracle, with storage observed through
@@ -95,26 +96,22 @@ def _tlc_phase(ctx: Ctx, quick: bool, out2: str, out3: Optional[str]) -> None:
     jobs: List[Tuple[str, str, Dict[str, Any], Optional[List[str]]]] = []
     # (label, cfg, kwargs, expectation: None = must pass, list = exactly these invariants violated)
     if quick:
-        jobs.append(("repaired len<=3 reduced alphabet", _cfg(True, True, 3, 0, INV_ALL, **red), {}, None))
-        jobs.append(("repaired len<=2 full alphabet", _cfg(True, True, 2, 0, INV_ALL), {}, None))
+        jobs.append(("current code, len<=3, reduced alphabet", _cfg(True, True, 3, 0, INV_ALL, **red), {}, None))
     else:
-        jobs.append(("repaired len<=3 full alphabet", _cfg(True, True, 3, 0, INV_ALL), {"timeout_s": 840}, None))
-    jobs.append(("as-is len<=2 full alphabet + export",
-                 _cfg(False, False, 2, 2, ["Inv_RejectedUnchanged", "Inv_RejectedLeavesNoFile", "Inv_ContentIsAccepted"]),
-                 {"env": {"VERIF_OUT": out2}}, None))
+        jobs.append(("current code, len<=3, full alphabet", _cfg(True, True, 3, 0, INV_ALL), {"timeout_s": 840}, None))
+    jobs.append(("current code, len<=2, full alphabet + export", _cfg(True, True, 2, 2, INV_ALL), {"env": {"VERIF_OUT": out2}}, None))
     if out3 is not None:
         x3 = dict(rich=X3_RICH, plain=X3_PLAIN, vcl=X3_VCLASSES, fv=X3_FILEVARS)
-        jobs.append(("as-is len<=3 small alphabet + export",
-                     _cfg(False, False, 3, 3, ["Inv_RejectedUnchanged", "Inv_ContentIsAccepted"], **x3),
-                     {"env": {"VERIF_OUT": out3}}, None))
-    # the three defects, each visible in the as-is model and repaired by exactly its own flag
-    jobs.append(("as-is: ScanNeverBreaks must fail", _cfg(False, True, 2, 0, ["Inv_ScanNeverBreaks"]), {}, ["Inv_ScanNeverBreaks"]))
-    jobs.append(("as-is: BoundsMeanTheirColumn must fail", _cfg(False, True, 2, 0, ["Inv_BoundsMeanTheirColumn"]), {}, ["Inv_BoundsMeanTheirColumn"]))
-    jobs.append(("as-is: AcceptedExact must fail", _cfg(True, False, 2, 0, ["Inv_AcceptedExact"]), {}, ["Inv_AcceptedExact"]))
-    jobs.append(("FixWriteTableSchema alone repairs scans and bounds",
+        jobs.append(("current code, len<=3, small alphabet + export", _cfg(True, True, 3, 3, INV_ALL, **x3), {"env": {"VERIF_OUT": out3}}, None))
+    # anti-vacuity companions: the model of the code BEFORE each fix must violate the invariant that fix
+    # restores, and only that fix restores it
+    jobs.append(("pre-fec250c model: ScanNeverBreaks must fail", _cfg(False, True, 2, 0, ["Inv_ScanNeverBreaks"]), {}, ["Inv_ScanNeverBreaks"]))
+    jobs.append(("pre-fec250c model: BoundsMeanTheirColumn must fail", _cfg(False, True, 2, 0, ["Inv_BoundsMeanTheirColumn"]), {}, ["Inv_BoundsMeanTheirColumn"]))
+    jobs.append(("pre-fa79e69 model: AcceptedExact must fail", _cfg(True, False, 2, 0, ["Inv_AcceptedExact"]), {}, ["Inv_AcceptedExact"]))
+    jobs.append(("pre-fa79e69 model still satisfies scans and bounds",
                  _cfg(True, False, 2, 0, ["Inv_ScanNeverBreaks", "Inv_FilesMatchTable", "Inv_BoundsMeanTheirColumn"]), {}, None))
-    jobs.append(("FixStrictValues alone repairs exactness", _cfg(False, True, 2, 0, ["Inv_AcceptedExact"]), {}, None))
-    # anti-vacuity on the repaired model: these states must be reachable
+    jobs.append(("pre-fec250c model still satisfies exactness", _cfg(False, True, 2, 0, ["Inv_AcceptedExact"]), {}, None))
+    # anti-vacuity on the current-code model: these states must be reachable
     for nv in ("Never_AcceptedWithSchemaArg", "Never_FooterReject", "Never_ThreeFiles"):
         jobs.append((f"anti-vacuity {nv} must fail", _cfg(True, True, 3, 0, [nv], **red), {}, [nv]))
 
@@ -991,7 +988,9 @@ def run(ctx: Ctx) -> None:
     ctx.cov["model_drift_notes"] = agg["drift"]
     ctx.cov["model_drift_samples"] = agg["drift_samples"]
     ctx.cov["exhaustive"] = (not quick) and ctx.cov.get("extra_histories_len2", 0) + len(chosen) == len(cases)
-    if agg["accepted"] < 100 or agg["rejected"] < 100:
+    if (agg["accepted"] < 100 or agg["rejected"] < 100) and not ctx.violations:
+        # (with violations already reported the verdict stands; a library that rejects or accepts
+        #  everything is judged by those, not by this self-check)
         raise MachineryError(f"vacuous replay: {agg['accepted']} accepted / {agg['rejected']} rejected appends")
     ctx.rule("case = one TLC history of MC_SchemaAccept (sequence of appends [handle, fresh, kind, schema/file variant, value class]) "
              "concretised for one (T1,T2) column-type combination, or one value of a type's value table placed in the second append "
@@ -1017,7 +1016,7 @@ def replay(ctx: Ctx, path: str) -> None:
     p = rec["replay"]
     outdir = scratch_dir("c11out")
     out2 = os.path.join(outdir, "hist2.ndjson")
-    res = tlc.run_tlc("MC_SchemaAccept", _cfg(False, False, 1, 1, []), env={"VERIF_OUT": out2}, deadlock=False, label="header export")
+    res = tlc.run_tlc("MC_SchemaAccept", _cfg(True, True, 1, 1, []), env={"VERIF_OUT": out2}, deadlock=False, label="header export")
     ctx.add_tlc(res)
     header, _ = _load(out2)
     specials = None
